@@ -68,4 +68,84 @@ Proof.
   cbn [c_start c_end c_body]. destruct (slice_clamped data st Hle) as [E1 E2]. fold L in E1, E2.
   repeat split; auto. rewrite E2. lia.
 Qed.
-Print Assumptions C03_inside_exact.
+
+
+(* ---------- several ranges: one part per requested range, in request order ---------- *)
+Fixpoint join_with (c : N) (l : list (list N)) : list N :=
+  match l with [] => [] | [x] => x | x :: r => x ++ c :: join_with c r end.
+Lemma split_app_sep c a t : split (a ++ c :: t) [c] = split a [c] ++ split t [c].
+Proof. unfold split. apply split_aux_1_app. Qed.
+Lemma split_join c specs : specs <> [] -> Forall (fun sp => ~ In c sp) specs -> split (join_with c specs) [c] = specs.
+Proof.
+  induction specs as [|x r IH]; intros Hne Hf; [congruence|].
+  inversion Hf as [|? ? Hx Hr]; subst. destruct r as [|y r'].
+  - cbn [join_with]. apply split_nochar, Hx.
+  - change (join_with c (x :: y :: r')) with (x ++ c :: join_with c (y :: r')).
+    rewrite split_app_sep, (split_nochar c x Hx), IH by (congruence || assumption). reflexivity.
+Qed.
+
+Definition part_of (SP data : list N) (q : list (list N)) (se : N * N) : crange :=
+  mkCr (fst se) (snd se) (N.of_nat (length data)) (slice data (fst se) (snd se)) (detect_mime SP) (FromFile q false).
+
+Lemma read_specs_all fs SP data q : regular_at fs SP data q ->
+  forall specs ses,
+  Forall2 (fun sp se => parse_range (N.of_nat (length data)) sp = ROk' se /\ snd se - fst se <> 2 ^ 64 - 1) specs ses ->
+  read_specs fs false SP (N.of_nat (length data)) specs = SOk (map (part_of SP data q) ses).
+Proof.
+  intros [Hn Hf]. induction 1 as [|sp [st en] specs ses [Hp Hov] _ IH]; [reflexivity|].
+  cbn [read_specs map]. rewrite Hp. cbn [fst snd] in Hov.
+  unfold read_range. rewrite Hf. cbn [negb].
+  destruct (parse_range_bounds _ _ _ _ Hp) as [Hle _].
+  destruct (N.ltb_spec en st) as [Hlt|_]; [lia|].
+  destruct (N.eqb_spec (en - st) (2 ^ 64 - 1)) as [E|_]; [contradiction|].
+  rewrite Hn, IH. cbn [orb]. reflexivity.
+Qed.
+(* a spec the parser rejects makes the whole request a 416, whatever precedes it *)
+Lemma read_specs_416 fs SP data q : regular_at fs SP data q ->
+  forall good ses bad rest,
+  Forall2 (fun sp se => parse_range (N.of_nat (length data)) sp = ROk' se /\ snd se - fst se <> 2 ^ 64 - 1) good ses ->
+  parse_range (N.of_nat (length data)) bad = R416 ->
+  read_specs fs false SP (N.of_nat (length data)) (good ++ bad :: rest) = SErr 416.
+Proof.
+  intros [Hn Hf] good ses bad rest H Hb. induction H as [|sp [st en] specs ses' [Hp Hov] _ IH]; cbn [app read_specs].
+  - rewrite Hb. reflexivity.
+  - rewrite Hp. cbn [fst snd] in Hov. unfold read_range. rewrite Hf. cbn [negb].
+    destruct (parse_range_bounds _ _ _ _ Hp) as [Hle _].
+    destruct (N.ltb_spec en st) as [Hlt|_]; [lia|].
+    destruct (N.eqb_spec (en - st) (2 ^ 64 - 1)) as [E|_]; [contradiction|].
+    rewrite Hn, IH. reflexivity.
+Qed.
+
+Theorem C03_multi_range fs SP data q specs ses :
+  regular_at fs SP data q -> specs <> [] -> Forall (fun sp => ~ In 61 sp /\ ~ In 44 sp) specs ->
+  Forall2 (fun sp se => parse_range (N.of_nat (length data)) sp = ROk' se /\ snd se - fst se <> 2 ^ 64 - 1) specs ses ->
+  parse_content_range fs false SP (N.of_nat (length data)) (BYTES_EQ ++ join_with 44 specs) = SOk (map (part_of SP data q) ses).
+Proof.
+  intros R Hne Hc H. unfold parse_content_range.
+  unfold starts_with. rewrite prefixb_app. cbn [negb].
+  rewrite bytes_eq_split, <- app_assoc. cbn [app].
+  assert (H61 : ~ In 61 (join_with 44 specs)).
+  { clear -Hc. induction specs as [|x r IH]; [auto|]. inversion Hc as [|? ? [Hx _] Hr]; subst. destruct r as [|y r'].
+    - exact Hx.
+    - change (join_with 44 (x :: y :: r')) with (x ++ 44 :: join_with 44 (y :: r')). intro Hin. apply in_app_or in Hin as [Hin|[Hin|Hin]];
+      [contradiction|discriminate|exact (IH Hr Hin)]. }
+  rewrite split_one_sep by (auto; unfold BYTES_WORD; simpl; intuition discriminate).
+  rewrite split_join; [|exact Hne|eapply Forall_impl; [|exact Hc]; intros a [_ Ha]; exact Ha].
+  apply read_specs_all; assumption.
+Qed.
+
+(* every part the reader produces for an accepted spec: contiguous bytes starting at the requested offset, never beyond the file;
+   exact length and a correct label when the spec ends inside the file (C03-F1 is the other case, en = L) *)
+Theorem C03_part_facts data SP q se : let L := N.of_nat (length data) in
+  fst se <= snd se -> snd se <= L ->
+  let c := part_of SP data q se in
+  c_start c = fst se /\ c_end c = snd se /\ c_size c = L /\
+  c_body c = firstn (N.to_nat (snd se - fst se + 1)) (skipn (N.to_nat (fst se)) data) /\
+  (snd se < L -> N.of_nat (length (c_body c)) = snd se - fst se + 1) /\
+  (snd se = L -> c_body c = skipn (N.to_nat (fst se)) data /\ N.of_nat (length (c_body c)) = L - fst se).
+Proof.
+  intros L H1 H2 c. subst c. unfold part_of. cbn [c_start c_end c_size c_body]. repeat split; try reflexivity.
+  - intro Hlt. apply slice_exact; assumption.
+  - rewrite H. apply slice_clamped. fold L. lia.
+  - rewrite H. apply slice_clamped. fold L. lia.
+Qed.
